@@ -50,7 +50,7 @@ func streamC27(h *H) {
 				h.Rec("osummary", U64(osn.Summary.Files), U64(osn.Summary.Bytes))
 			}
 			before := a5Snapshots(cli)
-			args := append([]string{"rewrite"}, fl.Args()...)
+			args := append([]string{"rewrite"}, fl.Args("")...)
 			args = append(args, snap)
 			r := cli.Run(args...)
 			switch {
